@@ -133,7 +133,7 @@ def runConc (lang sched progs : String) : String :=
   | some ps, some sc =>
     if !validLang lang || ps.length > 8 then "bad-case" else
     let n := ps.length
-    let total := (ps.map List.length).foldl (· + ·) 0
+    let total := (ps.map List.length).sum
     let s0 : CState World String String String Inst String String := CState.init lang World.init ps
     let s := crun ext (sc ++ roundRobin n (3 * total)) s0
     if (List.range n).all (finishedB s) then
